@@ -1,8 +1,67 @@
 import MidnightZK.Model.Common
-/-! Line-protocol handler of property C05 (stub: answers `unimplemented`). -/
+import MidnightZK.Model.C05.Bounds
+import MidnightZK.Gen.C05Params
+/-! Line-protocol handler of property C05. -/
 namespace MidnightZK.C05.Driver
+open MidnightZK MidnightZK.C05
 
-def answer (_line : String) : String := "unimplemented"
+def findSet (name : String) : Option Params := Gen.paramSets.find? (·.name = name)
+
+def fmtInts (l : List Int) : String := fmtIntList l
+
+/-- `a:b,c:d,…` or `-`. -/
+def parsePairs? (s : String) : Option (List (Int × Int)) :=
+  if s = "-" then some [] else
+  (s.splitOn ",").mapM (fun t =>
+    match t.splitOn ":" with
+    | [a, b] => do let a ← parseInt? a; let b ← parseInt? b; pure (a, b)
+    | _ => none)
+
+def fmtPairs (l : List (Int × Int)) : String :=
+  if l.isEmpty then "-" else ",".intercalate (l.map (fun ab => s!"{ab.1}:{ab.2}"))
+
+def fmtAux (r : Except String AuxBounds) : String :=
+  match r with
+  | .ok b => s!"{b.kMin} {b.uMax} {fmtPairs b.vs}"
+  | .error e => e
+
+def answer (line : String) : String :=
+  match words line with
+  | ["auxb", p, m, moduli, emin, emax, mjb] =>
+    match parseInt? p, parseInt? m, parseIntList? moduli, parseInt? emin, parseInt? emax, parsePairs? mjb with
+    | some p, some m, some moduli, some emin, some emax, some mjb =>
+      if p ≤ 0 ∨ m ≤ 0 ∨ moduli.any (· ≤ 0) then "bad-op" else
+      fmtAux (identityAuxBounds p m moduli (emin, emax) mjb)
+    | _, _, _, _, _, _ => "bad-op"
+  | ["params", name] =>
+    match findSet name with
+    | some P => s!"{P.p} {P.m} {P.log2Base} {P.nbLimbs} {fmtInts P.moduli} {P.rcLimbSize} {P.maxLimbBound}"
+    | none => "bad-op"
+  | ["nsets"] => toString Gen.paramSets.length ++ " " ++ " ".intercalate (Gen.paramSets.map (·.name))
+  | ["bpow", name] =>
+    match findSet name with
+    | some P => s!"{fmtInts P.basePowers} {fmtInts P.doubleBasePowers}"
+    | none => "bad-op"
+  | ["chk", name] =>
+    match findSet name with
+    | some P => if P.checkParams then "ok" else "panic"
+    | none => "bad-op"
+  | ["wf", name] =>
+    match findSet name with
+    | some P =>
+      match P.wellFormedLog2Bounds with
+      | some l => fmtNatList l
+      | none => "panic"
+    | none => "bad-op"
+  | ["mulb", name] =>
+    match findSet name with
+    | some P => fmtAux P.mulBounds
+    | none => "bad-op"
+  | ["normb", name] =>
+    match findSet name with
+    | some P => fmtAux P.normBounds
+    | none => "bad-op"
+  | _ => "bad-op"
 
 end MidnightZK.C05.Driver
 
